@@ -1,7 +1,7 @@
 SPECIFICATION SpecLegal
-CONSTANT Cfg <- MCCfg32
-CONSTANT MinDem = 1
-CONSTANT MaxDem = 3
+CONSTANT Cfg <- MCCfg42
+CONSTANT MinDem = 2
+CONSTANT MaxDem = 2
 INVARIANT FeasibleAlways
 INVARIANT CompletionIsFullSolution
 INVARIANT NoNegativeCapacity
